@@ -902,7 +902,8 @@ class Model:
     def sc_rotations_from_rotvecs(self, interp, args, kwargs, node):
         x = self.lift(interp, args[0] if args else kwargs['rotation_vectors'])
         t = Mat.of(T.atom('mfn', 'rot', (x.term,))) if isinstance(x.term, Vec) else None
-        interp.event('rotation-from-rotvec', node, rotvec=T.show(x.term) if x.term is not None else '⊤', unit=repr(x.unit))
+        interp.event('rotation-from-rotvec', node, rotvec=T.show(x.term) if x.term is not None else '⊤', unit=repr(x.unit),
+                     term=x.term)
         return self.new(interp, t, DIMENSIONLESS, 'linear_transform3', x.taint, x.why)
 
     def sc_where(self, interp, args, kwargs, node):
@@ -1015,6 +1016,14 @@ class Model:
             r = self._elementwise(interp, name, lifted, {}, node)
             r.kind = 'pyfloat'
             return r
+        # list-level numpy helpers on concrete python lists (used by table assembly code)
+        if mod == 'numpy' and args and isinstance(args[0], list) and all(not isinstance(x, Opaque | SVar) for x in args[0]):
+            if name == 'array' and len(args) == 1:
+                return list(args[0])
+            if name == 'repeat' and len(args) == 2 and isinstance(args[1], int):
+                return [x for x in args[0] for _ in range(args[1])]
+            if name == 'tile' and len(args) == 2 and isinstance(args[1], int):
+                return list(args[0]) * args[1]
         for a in list(args) + list(kwargs.values()):
             if isinstance(a, SVar) and a.origin is not None:
                 interp.event('escapes-to-unknown', node, param=a.origin, callee=f'{mod}.{name}')
